@@ -80,7 +80,9 @@ Record ownp (H : list head) (JL : list rjob) (st : xstate) : Prop := mkownp {
          la st (fst (u_base u)) 0 \/ fst (u_base u) < d_bit (x_parser_bs st) + HDR_MIN;
   o_noinq : x_parsing_done st = true -> Forall (fun u => u_inq u = false) (x_unords st);
   o_next : x_parsing_done st = false -> x_next st <= d_bit (x_parser_bs st);
-  o_pok : x_parsing_done st = false -> dbs_ok (x_parser_bs st) = true
+  o_pok : x_parsing_done st = false -> dbs_ok (x_parser_bs st) = true;
+  (* an unord block outside unord_q is still referenced by its retrieve job *)
+  o_u3 : forall u, In u (x_unords st) -> u_inq u = false -> exists j, In j JL /\ r_link j = Some (u_id u)
 }.
 
 Record oshape (st : xstate) : Prop := mkoshape {
@@ -127,7 +129,7 @@ Qed.
 Lemma ownp_view H JL JL' st st' :
   oview st st' -> (forall j, In j JL <-> In j JL') -> ownp H JL st -> ownp H JL' st'.
 Proof.
-  intros V EJ [A B C D E F G K]. pose proof (la_view st st') as LV. destruct V.
+  intros V EJ [A B C D E F G K U3]. pose proof (la_view st st') as LV. destruct V.
   constructor; rewrite ?ov_un0, ?ov_ro0, ?ov_nx0, ?ov_pb0, ?ov_dn0; auto.
   - intros h Hh. destruct (A h Hh) as [[Z (j & J1 & J2)]|L]; [left; split; auto; exists j; split; [apply EJ; auto|auto]|right].
     apply LV; auto. constructor; auto.
@@ -135,6 +137,7 @@ Proof.
   - intros j Hj. apply C. apply EJ; auto.
   - intros u Hu Cu. destruct (D u Hu Cu) as (j & J1 & J2). exists j. split; auto. apply EJ; auto.
   - intros u Hu Q Cu. destruct (E u Hu Q Cu) as [L|L]; [left|right; auto]. apply LV; auto. constructor; auto.
+  - intros u Hu Qu. destruct (U3 u Hu Qu) as (j & J1 & J2). exists j. split; auto. apply EJ; auto.
 Qed.
 
 Lemma oshape_view st st' : x_order_q st' = x_order_q st -> x_next st' = x_next st -> oshape st -> oshape st'.
@@ -246,12 +249,13 @@ Lemma ownp_la H JL JL' st st' :
   (forall o, In o (x_reord_q st') -> o_status o = MORE -> la st' (fst (o_base o)) (snd (o_base o) + 1)) ->
   ownp H JL st -> ownp H JL' st'.
 Proof.
-  intros E1 E2 E3 E4 EJ LV MO [A B C D E F G K].
+  intros E1 E2 E3 E4 EJ LV MO [A B C D E F G K U3].
   constructor; rewrite ?E1, ?E2, ?E3, ?E4; auto.
   - intros h Hh. destruct (A h Hh) as [[Z (j & J1 & J2)]|L]; [left; split; auto; exists j; split; [apply EJ; auto|auto]|right; auto].
   - intros j Hj. apply C. apply EJ; auto.
   - intros u Hu Cu. destruct (D u Hu Cu) as (j & J1 & J2). exists j. split; auto. apply EJ; auto.
   - intros u Hu Q Cu. destruct (E u Hu Q Cu) as [L|L]; [left|right]; auto.
+  - intros u Hu Qu. destruct (U3 u Hu Qu) as (j & J1 & J2). exists j. split; auto. apply EJ; auto.
 Qed.
 
 Lemma own_emit1 e rv size crc blksz st st' : own st -> emit1 e rv size crc blksz st = Some st' -> own st'.
